@@ -261,10 +261,18 @@ def universe_unit(rep):
         weights = dict((names[i], float(Fraction(a, b))) for i, (a, b) in enumerate(ws) if b != 0)
         exp = dict((names[i], Fraction(a, b)) for i, (a, b) in enumerate(es) if b != 0)
         n += 1
-        got_f = FixedWeightPortfolioOptimiser()(dt, initial_weights=dict(weights))
+        try:
+            got_f = FixedWeightPortfolioOptimiser()(dt, initial_weights=dict(weights))
+        except Exception as e:
+            got_f = "%s: %s" % (type(e).__name__, e)
         if got_f != weights:
             rep.violation("optimiser|fixed", "fixed-weight optimiser returned %s for %s" % (got_f, weights), dict(unit="fixed", weights=weights))
-        got_e = EqualWeightPortfolioOptimiser(scale=float(scale))(dt, initial_weights=dict(weights))
+        try:
+            got_e = EqualWeightPortfolioOptimiser(scale=float(scale))(dt, initial_weights=dict(weights))
+        except Exception as e:
+            rep.violation("optimiser|equal", "equal-weight optimiser (scale %s) raised %s: %s for the non-empty weights %s" % (
+                scale, type(e).__name__, e, weights), dict(unit="equal", weights=weights, scale=str(scale)))
+            continue
         if set(got_e) != set(exp) or any(abs(got_e[k] - float(exp[k])) > 1e-12 for k in exp) or abs(sum(got_e.values()) - float(scale)) > 1e-12:
             rep.violation("optimiser|equal", "equal-weight optimiser (scale %s) returned %s for keys %s, expected %s each" % (
                 scale, got_e, sorted(weights), float(scale) / len(weights)), dict(unit="equal", weights=weights, scale=str(scale)))
